@@ -306,6 +306,7 @@ def r03_3(ctx, run, rule='R03.3'):
                     ok = True
     bad_char = False
     const_run = None
+    guarded_run = None
     for p in ps:
         if p.end[0] == 'return':
             for s_ in subterms(p.ret):
@@ -315,17 +316,35 @@ def r03_3(ctx, run, rule='R03.3'):
                         ok = True
                     elif isinstance(cs_, str):
                         bad_char = True
+                run_len = None
                 if s_[0] == 'const' and isinstance(s_[1], str) and s_[1] and set(s_[1]) == {' '} and len(s_[1]) > 1:
-                    const_run = len(s_[1])
+                    run_len = len(s_[1])
                 if s_[0] == 'const' and isinstance(s_[1], tuple) and len(s_[1]) > 1 and all(x == 0x20 for x in s_[1]):
-                    const_run = len(s_[1])
+                    run_len = len(s_[1])
+                if run_len:
+                    # a prefix of a static run is the right indentation as long as the indent fits; it is only wrong when taken
+                    # unconditionally (indexing, clamping).  `RUN.get(..n)` matched `Some`, or a comparison of the indent with the run
+                    # length on the path, makes it conditional; the other side must then build the general string.
+                    def _guard(c):
+                        t = c[0]
+                        if t[0] == 'discr' and t[1][0] == 'call' and canon(t[1][1]).split('::')[-1] == 'get' and any(x_ is s_ or x_ == s_ for x_ in subterms(t[1])):
+                            return True
+                        if t[0] == 'bin' and t[1] in ('Le', 'Lt', 'Ge', 'Gt') and any(const_of(x_) in (run_len, run_len + 1, run_len - 1) or is_call(strip_casts(x_), 'len') for x_ in (t[2], t[3])):
+                            return True
+                        return False
+                    if any(_guard(c) for c in p.conds):
+                        guarded_run = run_len
+                    else:
+                        const_run = run_len
                 if s_[0] == 'call' and 'from_elem' in s_[1] and s_[2] and const_of(s_[2][0]) not in (None, 0x20):
                     bad_char = True
     if const_run:
         run.violation('R03.6', gi.path, 'indent-char', f'the indentation is cut out of a constant run of {const_run} spaces: the indent grows by two per nesting level without bound, so beyond '
                       f'{const_run // 2} levels the lines are mis-indented (capped) or the slice is out of range', f'{gi.file}:{gi.line}')
+    elif guarded_run and not ok:
+        run.undecided('R03.6', gi.path, 'indent-char', f'a prefix of a static run of {guarded_run} spaces is used where the indent fits; what is produced beyond it was not read: not decided', f'{gi.file}:{gi.line}')
     elif ok and not bad_char:
-        run.proved('R03.6', gi.path, 'indent-char', 'indentation is a run of U+0020', f'{gi.file}:{gi.line}')
+        run.proved('R03.6', gi.path, 'indent-char', 'indentation is a run of U+0020' + (f' (a prefix of a static run of {guarded_run} where it fits, built to length beyond)' if guarded_run else ''), f'{gi.file}:{gi.line}')
     elif bad_char:
         run.violation('R03.6', gi.path, 'indent-char', 'the indentation string is not built from spaces only', f'{gi.file}:{gi.line}')
     else:
